@@ -19,6 +19,7 @@ import (
 	"sync"
 	"time"
 
+	"github.com/99designs/gqlgen/graphql/executor"
 	"github.com/vektah/gqlparser/v2/ast"
 	"github.com/vektah/gqlparser/v2/parser"
 	"github.com/vektah/gqlparser/v2/validator"
@@ -414,6 +415,7 @@ func child(name, outPath string) {
 	if strings.HasPrefix(name, "core_") {
 		scalarFaults(name, env, srv, cr, count)
 	}
+	defaultRecoverStage(name, env, cr, count)
 
 	// the process must still serve after all of that
 	op, doc, _ := diffrun.GenValid(env.Schema, 424242, ast.Query, opgen.Config{MaxDepth: 2})
@@ -509,4 +511,55 @@ func classify(o *diffrun.Outcome, pt string, kind ast.Operation) string {
 		}
 	}
 	return "not_reached"
+}
+
+// defaultRecoverStage: a server that never configured a recover hook (graphql.DefaultRecover): several
+// panics per response and across a sequence of requests, each reported at its own position.
+func defaultRecoverStage(name string, env *univ.Env, cr *childResult, count func(string, int64)) {
+	srv := &drive.Server{Env: env, Exec: executor.New(env.ES)}
+	omit, _ := env.Probe.Options["nullable_input_omittable"].(bool)
+	done := 0
+	for i := 0; i < 40 && done < 12; i++ {
+		opSeed := int64(880000 + i)
+		op, doc, _ := diffrun.GenValid(env.Schema, opSeed, ast.Query, opgen.Config{MaxDepth: 3, MaxSel: 5})
+		if doc == nil {
+			continue
+		}
+		p := univ.SeedPlan{Seed: uint64(opSeed), MaxList: 3, PanPermille: 250, NullPermille: 30}
+		vars := diffrun.DecodeVars(op.Vars)
+		want := ref.Execute(env, &p, doc, op.OpName, diffrun.CopyJSON(vars), ref.Options{Omittable: omit})
+		if want.RequestError != "" {
+			continue
+		}
+		var wp []string
+		for _, e := range want.Errors {
+			if strings.HasPrefix(e.Class, "panic:") {
+				wp = append(wp, e.Path)
+			}
+		}
+		if len(wp) == 0 {
+			continue
+		}
+		got := srv.Run(context.Background(), &univ.Run{Plan: &p}, op.Query, op.OpName, diffrun.CopyJSON(vars), 30*time.Second)
+		cr.Evals++
+		done++
+		if got.TimedOut || len(got.Payloads) != 1 {
+			cr.Violations = append(cr.Violations, map[string]any{"why": "default recover hook: no single response", "probe": name, "query": op.Query})
+			continue
+		}
+		var gp []string
+		for _, e := range got.Payloads[0].Errors {
+			if e.Class == "other:internal system error" {
+				gp = append(gp, e.Path)
+			}
+		}
+		sort.Strings(wp)
+		sort.Strings(gp)
+		if d := drive.DiffStrings(wp, gp); d != "" {
+			cr.Violations = append(cr.Violations, map[string]any{"why": "default recover hook: the positions reported for the panics of this response differ from the positions that panicked: " + d,
+				"probe": name, "query": op.Query, "variables": op.Vars, "plan": p, "request_in_sequence": done})
+		}
+		count("default_recover_panics_located", int64(len(wp)))
+	}
+	cr.Distinct = append(cr.Distinct, name+"|default-recover")
 }
